@@ -106,3 +106,19 @@ Definition q_alg : alg Q := {|
   a_rel := q_rel;
   a_fun := fun f x => if String.eqb f "Abs" then Some (Qred (Qabs x)) else None
 |}.
+
+(** syntactic equality of expressions *)
+Fixpoint expr_eqb (a b : expr) : bool :=
+  match a, b with
+  | ENum f q, ENum f' q' => Bool.eqb f f' && Qeq_bool q q'
+  | ESym s, ESym s' => String.eqb s s'
+  | EBin o x y, EBin o' x' y' =>
+      match o, o' with OAdd, OAdd | OMul, OMul => true | _, _ => false end && expr_eqb x x' && expr_eqb y y'
+  | EPow x n, EPow x' n' => expr_eqb x x' && Z.eqb n n'
+  | EPw v r x y e, EPw v' r' x' y' e' =>
+      match r, r' with RLt, RLt | RLe, RLe | RGt, RGt | RGe, RGe => true | _, _ => false end
+      && expr_eqb v v' && expr_eqb x x' && expr_eqb y y' && expr_eqb e e'
+  | EFun f x, EFun f' x' => String.eqb f f' && expr_eqb x x'
+  | _, _ => false
+  end.
+
